@@ -254,6 +254,117 @@ func loopIterPaths(h *ssa.BasicBlock, max int) ([]iterPath, bool) {
 	return out, complete
 }
 
+// iterLeavesLoop decides whether, after the iteration pa, the loop header's own test ends the
+// loop (`for done := false; !done; {…}`): the header condition is evaluated with the header's phis
+// taking the values that flow round the back edge of pa, using the branch decisions pa took.
+// known is false when the condition is not decided by pa (then the iteration must be assumed to
+// repeat).
+func iterLeavesLoop(h *ssa.BasicBlock, pa iterPath) (leaves, known bool) {
+	ifi, ok := h.Instrs[len(h.Instrs)-1].(*ssa.If)
+	if !ok || len(pa.blocks) == 0 {
+		return false, true // unconditional header: `for {`
+	}
+	body := loopBlocks(h)
+	in0, in1 := body[h.Succs[0]], body[h.Succs[1]]
+	if in0 && in1 {
+		return false, true
+	}
+	predIdx := func(b, from *ssa.BasicBlock) int {
+		for i, q := range b.Preds {
+			if q == from {
+				return i
+			}
+		}
+		return -1
+	}
+	pos := map[*ssa.BasicBlock]int{}
+	for i, b := range pa.blocks {
+		pos[b] = i
+	}
+	// resolve follows phis of the path's blocks backwards; a phi of the header reached this way
+	// denotes the value the header variable had during this iteration.
+	var resolve func(v ssa.Value, depth int) ssa.Value
+	resolve = func(v ssa.Value, depth int) ssa.Value {
+		ph, ok := v.(*ssa.Phi)
+		if !ok || depth > 16 {
+			return v
+		}
+		i, on := pos[ph.Block()]
+		if !on || i == 0 {
+			return v
+		}
+		k := predIdx(ph.Block(), pa.blocks[i-1])
+		if k < 0 {
+			return v
+		}
+		return resolve(ph.Edges[k], depth+1)
+	}
+	// truth of a value computed during this iteration, from the branches the iteration took
+	var truth func(v ssa.Value, depth int) (bool, bool)
+	truth = func(v ssa.Value, depth int) (bool, bool) {
+		if depth > 16 {
+			return false, false
+		}
+		v = resolve(v, 0)
+		if b, ok := constBool(v); ok {
+			return b, true
+		}
+		if u, ok := v.(*ssa.UnOp); ok && u.Op == token.NOT {
+			t, k := truth(u.X, depth+1)
+			return !t, k
+		}
+		for _, e := range pa.edges {
+			c, pol := e.If.Cond, e.Pol
+			for {
+				if u, ok := c.(*ssa.UnOp); ok && u.Op == token.NOT {
+					c, pol = u.X, !pol
+					continue
+				}
+				break
+			}
+			if c == v {
+				return pol, true
+			}
+		}
+		return false, false
+	}
+	// the header condition at the next arrival: header phis take their back-edge values
+	last := pa.blocks[len(pa.blocks)-1]
+	k := predIdx(h, last)
+	if k < 0 {
+		return false, false
+	}
+	var next func(v ssa.Value, depth int) (bool, bool)
+	next = func(v ssa.Value, depth int) (bool, bool) {
+		if depth > 16 {
+			return false, false
+		}
+		if b, ok := constBool(v); ok {
+			return b, true
+		}
+		switch x := v.(type) {
+		case *ssa.Phi:
+			if x.Block() == h {
+				return truth(x.Edges[k], 0)
+			}
+		case *ssa.UnOp:
+			if x.Op == token.NOT && x.Block() == h {
+				t, kn := next(x.X, depth+1)
+				return !t, kn
+			}
+		}
+		return false, false
+	}
+	t, kn := next(ifi.Cond, 0)
+	if !kn {
+		return false, false
+	}
+	if t {
+		return !in0, true
+	}
+	return !in1, true
+}
+
 func isBackslashAppend(in ssa.Instruction) bool {
 	c, ok := in.(*ssa.Call)
 	if !ok {
